@@ -105,7 +105,7 @@ def tok(text):
 
 CHANNELS = ["label", "hint", "guidance", "cmsg", "rmsg", "choice_label", "choice_extra", "default", "title", "version", "appearance",
             "bind_attr", "instance_attr", "body_attr", "settings_attr", "group_label", "label_ref", "hint_ref", "itext_label", "itext_hint", "choice_itext",
-            "note_label_ref2", "label_instance", "itext_label_ref", "choice_itext_ref"]
+            "note_label_ref2", "label_instance", "itext_label_ref", "choice_itext_ref", "label_ref_twin"]
 
 
 INSTANCE_OK = {"p", "lt", "gt", "sp", "apos"}
@@ -143,6 +143,10 @@ def build(classes, seed=0, only=None, with_instance=None):
 
     q.append({"type": "text", "name": "q_lref", "label": put_full("label_ref", "%s ${q0} tail") or "L"})
     q.append({"type": "text", "name": "q_href", "label": "QHR", "hint": put_full("hint_ref", "${q0} %s")})
+    # the very same reference-bearing text a second time under the same tag (nothing may be shared between the two elements)
+    if "label_ref" in chans and (not only or "label_ref_twin" in only):
+        chans["label_ref_twin"] = chans["label_ref"]
+        q.append({"type": "text", "name": "q_lref2", "label": chans["label_ref_twin"]})
     q.append({"type": "end group"})
     # a translated label that mixes text with a reference, immediately before plain translated text (itext values are
     # produced one after the other: the treatment of one must not leak into the next)
@@ -289,6 +293,8 @@ def recover(xform, chans):
             r = lab("/data/grp/q_href", "hint")
         elif ch == "itext_label":
             r = lab("/data/q_it", "label", "English (en)")
+        elif ch == "label_ref_twin":
+            r = lab("/data/grp/q_lref2", "label")
         elif ch == "itext_label_ref":
             r = lab("/data/q_itref", "label", "English (en)")
         elif ch == "itext_hint":
